@@ -373,6 +373,24 @@ impl World for CnfWorld {
                     }
                     let same_sets = vs_ref[0] == vs_ref[1];
                     ctx.check("C15", "varset-equality", (vs[0] == vs[1]) == same_sets, || format!("VarSets {:?} and {:?}: == gives {}", vs_ref[0], vs_ref[1], vs[0] == vs[1]))?;
+                    // equal sets are interchangeable as keys: std::hash::Hash agrees with == whatever the storage history
+                    let std_hash = |s: &VarSet| {
+                        use std::hash::{Hash, Hasher};
+                        let mut h = std::collections::hash_map::DefaultHasher::new();
+                        s.hash(&mut h);
+                        h.finish()
+                    };
+                    if same_sets {
+                        ctx.check("C15", "varset-hash-agrees-with-eq", std_hash(&vs[0]) == std_hash(&vs[1]), || format!("two VarSets holding {:?} compare equal but hash differently", vs_ref[0]))?;
+                    }
+                    for k in 0..2 {
+                        let mut fresh = if i % 2 == 0 { VarSet::new() } else { VarSet::new_with_num_vars(WIDE) };
+                        for v in vs_ref[k].iter() {
+                            fresh.insert(VarLabel::new(*v as u64));
+                        }
+                        ctx.check("C15", "varset-equality", fresh == vs[k] && vs[k] == fresh, || format!("VarSet #{k} holding {:?} does not compare equal to a freshly built set with the same members", vs_ref[k]))?;
+                        ctx.check("C15", "varset-hash-agrees-with-eq", std_hash(&fresh) == std_hash(&vs[k]), || format!("VarSet #{k} holding {:?} and a freshly built equal set hash differently", vs_ref[k]))?;
+                    }
                     // difference against the hasher-side model
                     let other = PartialModel::from_assignments(&model);
                     let mut gd: Vec<(usize, bool)> = pm.difference(&other).map(|l| (l.label().value_usize(), l.polarity())).collect();
@@ -449,6 +467,32 @@ impl World for CnfWorld {
                     }
                     ctx.evals += 1;
                     let _ = is_taut;
+                    // the conditioned formula's own hasher is a residual hasher of *that* formula: assignments that
+                    // falsify none of its clauses and leave the same residual hash equally -- whether or not they also
+                    // mention the variable that was conditioned away, and whatever they say about its new units
+                    {
+                        let nclauses: Vec<Vec<(usize, bool)>> = next.clauses().iter().map(|c| c.iter().map(|l| (l.label().value_usize(), l.polarity())).collect()).collect();
+                        let nh = next.hasher();
+                        let mut seen: BTreeMap<Vec<(usize, Vec<(usize, bool)>)>, (String, Vec<Option<bool>>)> = BTreeMap::new();
+                        for j in 0..10u64 {
+                            let bits = crate::rng::mix(op.a[2] as u64 ^ 0x5eed, j / 2);
+                            let mut m: Vec<Option<bool>> = (0..nv).map(|v| match (bits >> (2 * (v % 30))) & 3 { 0 => Some(false), 1 => Some(true), _ => None }).collect();
+                            // odd variants differ from the even one only on the conditioned variable
+                            m[var] = if j % 2 == 0 { None } else { Some((bits >> 62) & 1 == 1) };
+                            let (res, falsified) = residual(&nclauses, &m);
+                            if falsified {
+                                continue;
+                            }
+                            let hs = format!("{:?}", nh.hash(&PartialModel::from_assignments(&m)));
+                            if let Some((prev, pm0)) = seen.get(&res) {
+                                ctx.check("C15", "hasher-equal-residual-equal-hash", *prev == hs, || {
+                                    format!("hasher of ({:?}).condition(x{var}={pol}): assignments {:?} and {:?} leave the same residual {:?} but hash to {prev} and {hs}", cur_ref, pm0, m, res)
+                                })?;
+                            } else {
+                                seen.insert(res, (hs, m));
+                            }
+                        }
+                    }
                     cur_cnf = next;
                     cur_ref = next_ref;
                     ctx.ev(60, &[var as u64, pol as u64, cur_ref.len() as u64]);
